@@ -32,10 +32,10 @@ MC = {
     "quick": [("{97}", "{92}", 8, 3), ("{97, 98}", "{}", 7, 2), ("{97}", "{}", 8, 3, True), ("{47}", "{}", 8, 3, True)],   # 47 = '/': "//" is text
     "thorough": [("{97}", "{92}", 9, 4), ("{97}", "{}", 10, 4), ("{97, 98}", "{}", 9, 3), ("{97}", "{}", 9, 3, True), ("{47}", "{}", 9, 3, True)],
 }
-MODES = ["typed", "lines", "paste", "bracketed", "bracketed_enter", "bracketed4"]
+MODES = ["typed", "lines", "paste", "bracketed", "bracketed_enter", "bracketed4", "crlf_typed"]
 # long random inputs (code -> spec): number of inputs per tier and their read schedules
 LONG = {"quick": 96, "thorough": 720}
-LONG_MODES = MODES + ["max256", "max100", "max7"]
+LONG_MODES = MODES + ["max256", "max100", "max7", "crlf_max256", "crlf_max7", "crlf_paste"]
 LONG_LEN = (200, 1200)
 READ_BUF = 256            # Terminal.inBuf
 MULTIBYTE = ["é", "ß", "東", "€", "😀", "𝄞",    # 2, 2, 3, 3, 4, 4 bytes in UTF-8
